@@ -43,7 +43,7 @@ MAP = {
 SKIP_CALLS = ("_log.", "LOG.", "log.debug", "log.info", "logging.", "super(", "warnings.")
 
 
-def mutants_of(rel, cap=30):
+def mutants_of(rel, cap=int(os.environ.get("MXV_CAMP_CAP", "30"))):
     path = os.path.join(REPO, IMPL, rel)
     src = open(path).read()
     lines = src.split("\n")
